@@ -194,7 +194,8 @@ def generate(rng, tier):
     after = rng.choice([[], [], ["--config", "max_width=80"], ["-v"], ["--unstable-features", "--skip-children"]])
     if msgfmt == "json" and check:
         check = False
-    fault = rng.choice(["none"] * 4 + ["status", "status", "signal", "signal", "spawn-enoent", "spawn-eacces", "cargo-fails"])
+    fault = rng.choice(["none"] * 4 + ["status", "status", "signal", "signal", "spawn-enoent", "spawn-eacces", "cargo-fails",
+                        "realpath-errno", "realpath-errno"])
     return {
         "world": {"files": files}, "packages": [p["name"] for p in pk], "ext": [p["name"] for p in ext],
         "virtual": virtual, "single": single, "sel_kind": sel_kind, "sel": sel, "cwd": cwd, "subdir": subdir,
@@ -350,6 +351,9 @@ def execute(case):
             plan = ["0 spawn %d stub-rustfmt errno 13" % (1 + fa % 2)]
         elif fault == "cargo-fails":
             env["CARGO"] = "/bin/false"
+        elif fault == "realpath-errno":
+            # canonicalising one path fails: the target (or manifest) is still the same file
+            plan = ["0 realpath %d * errno %d" % (1 + fa % 5, [5, 13, 40][fa % 3])]
         if case["e2e"] and fault == "none":
             env["RUSTFMT"] = os.path.join(core.BIN, "rustfmt")
         inv = {"tool": "cargo-fmt", "argv": argv, "cwd": case["cwd"], "env": env, "hashseed": case["hashseed"],
@@ -418,6 +422,19 @@ def execute(case):
         nchild_expected = None
         spawn_failed = fault in ("spawn-enoent", "spawn-eacces")
         complete = not (spawn_failed and (any(e.fault for e in res.procs[0]) or fault == "spawn-enoent"))
+        if fault == "realpath-errno" and any(e.fault for e in res.procs[0]):
+            # a path could not be canonicalised: failing before anything is formatted is fine, and so is handing a
+            # file over under its uncanonical name (possibly twice) -- silently dropping a target is not
+            v.fired(fault)
+            if not calls and res.exit != 0:
+                v.probe("realpath-error-reported")
+                return v
+            ok = any(all(acc[e] <= got.get(e, set()) for e in acc) for acc in expected)
+            if not ok:
+                acc = expected[0]
+                missing = {e: sorted(acc.get(e, set()) - got.get(e, set())) for e in acc if acc.get(e, set()) - got.get(e, set())}
+                v.add("C18:target-dropped-under-realpath-error", "%s: missing %s" % (det, missing))
+            return v
         if complete:
             if not any(got == acc for acc in expected):
                 acc = expected[0]
